@@ -105,11 +105,8 @@ private:
   //! Stops the timer.
   static void stop_timer();
 
-  //! Quick reschedule to avoid race conditions.
-  static void reschedule();
-
-  // Used by the above.
-  static Implementation::Watchdog::Time reschedule_time;
+  //! Leaves the critical section, handling a deferred timeout, if any.
+  static void leave_critical_section();
 
   // Records the time elapsed since last fresh start.
   static Implementation::Watchdog::Time time_so_far;
@@ -134,6 +131,9 @@ private:
 
   //! Whether we are changing data that is also changed by the signal handler.
   static volatile bool in_critical_section;
+
+  //! Whether a timeout occurred while we were in a critical section.
+  static volatile bool timeout_deferred;
 
   friend void PPL_handle_timeout(int signum);
 
